@@ -637,7 +637,7 @@ func genText(g *h.Gen) {
 			}
 		}
 	}
-	for i := 0; i < g.N(1400, 40000); i++ {
+	for i := 0; i < g.N(1400, 120000); i++ {
 		name := h.Pick(g.R, ents)
 		ti := entries()[name]
 		d := tcell.VerifDerived(ti)
